@@ -178,6 +178,9 @@ LOCAL_PACKS = {
     "firstletter-empty": lambda: _local_pack("firstletter-empty",
                                              [FirstLetterToA(with_empty=True), RemoveFrontOfPrefix()], [],
                                              [[ExpansionStrategy()]], [StatAtomStrategy()]),
+    # a product whose two parent statistics (na, na2) map onto the one child statistic na (no inferral merges first)
+    "mergefront": lambda: _local_pack("mergefront", [RemoveFrontOfPrefix(merge=True)], [], [[ExpansionStrategy()]],
+                                      [StatAtomStrategy()]),
     "dropfront": lambda: _local_pack("dropfront", [RemoveFrontDropStat()], [], [[ExpansionDropStat()]],
                                      [StatAtomStrategy()]),
 }
